@@ -15,6 +15,7 @@ package driver
 import (
 	"bytes"
 	"fmt"
+	"os"
 	"strings"
 
 	"github.com/google/pprof/internal/plugin"
@@ -39,6 +40,20 @@ func (c *c08case) String() string {
 		return fmt.Sprintf("%d sources, %d bases(diff=%v), GET %s", len(c.profs), len(c.bases), c.diffBase, c.web)
 	}
 	return fmt.Sprintf("%d sources, %d bases(diff=%v), pprof %s", len(c.profs), len(c.bases), c.diffBase, strings.Join(c.flags, " "))
+}
+
+// key names the report kind, for violation classes.
+func (c *c08case) key() string {
+	if c.web != "" {
+		return strings.SplitN(c.web, "?", 2)[0]
+	}
+	k := strings.SplitN(c.flags[0], "=", 2)[0]
+	for _, f := range c.flags[1:] {
+		if f == "-call_tree" {
+			k += "+call_tree"
+		}
+	}
+	return k
 }
 
 func genC08Case(t *simrt.Tape) *c08case {
@@ -219,8 +234,15 @@ func runC08(x *xctx) *violation {
 			return violf("map-order-dependent-error", "%s: error %q under %s differs from %q under the canonical order", c, got.err, polName(pol), ref.err)
 		}
 		if got.out != ref.out {
+			if d := os.Getenv("VERIF_DUMP"); d != "" {
+				os.WriteFile(d+".ref", []byte(ref.out), 0644)
+				os.WriteFile(d+".got", []byte(got.out), 0644)
+				for i, p := range c.profs {
+					os.WriteFile(fmt.Sprintf("%s.src%d", d, i), p, 0644)
+				}
+			}
 			x.tr("map policy %s, strategy %d", polName(pol), cfg.Strategy)
-			return violf("map-order-dependent-output", "%s: output under map policy %s differs from the canonical-order run: %s", c, polName(pol), firstDiff(got.out, ref.out))
+			return violf("map-order-dependent-output:"+c.key(), "%s: output under map policy %s differs from the canonical-order run: %s", c, polName(pol), firstDiff(got.out, ref.out))
 		}
 	}
 	if perms >= 2 && len(ref.out) > 0 {
